@@ -4,7 +4,7 @@ import MpfVerif.Lemmas.LogicBlock
 
 Property theorems only (model: `Model/LogicBlock.lean`, helper lemmas: `Lemmas/LogicBlock.lean`).  Every theorem
 quantifies over all configurations `c` and all states `s` / all op sequences; nothing is assumed about reachability
-unless stated.  Events are read off the trace the model returns (`run`), i.e. from what the real device posts.
+unless stated.  Events are read off the trace the model returns (`run` / `xrun`), i.e. from what the real device posts.
 -/
 namespace MpfVerif.C18
 open MpfVerif.LogicBlock
@@ -119,36 +119,195 @@ theorem sequence_strict_order (c : Cfg) (s : St) (ks : List Nat) (hk : c.kind = 
     total nComplete (run c s (ks.map Op.hit)).2 = 0 :=
   ⟨fun k hv => sequence_wrong_step c s k hk hv, (sequence_run c s ks hk hl he hn).1, (sequence_run c s ks hk hl he hn).2⟩
 
-/-- **The window reopens**: after any op sequence from the initial state a pending hit window has its deadline strictly
-in the future and at most `multiple_hit_window` ticks away (no op can prolong it), and when the clock reaches the
-deadline the window is open again — hits are accepted again by `hit_event_per_accepted_hit`. -/
-theorem window_reopens (c : Cfg) (ops : List Op) (d : Nat) (hw : (run c (init c) ops).1.windowUntil = some d) :
-    (run c (init c) ops).1.now < d ∧ d ≤ (run c (init c) ops).1.now + c.window ∧
-    (ticks c (d - (run c (init c) ops).1.now) (run c (init c) ops).1).1.windowUntil = none := by
-  have inv : WindowOk c (run c (init c) ops).1 := run_window c (init c) ops ⟨fun h => by simp [init] at h, fun d h => by simp [init] at h⟩
+/-- total of a per-step count over an extended trace -/
+def xtotal (f : List Obs → Nat) (t : List (XOp × List Obs)) : Nat := (t.map (fun x => f x.2)).sum
+
+/-- number of steps of `ops`, started in `y`, at which `p system op` holds -/
+def xcountSteps (p : Sys → XOp → Bool) : Sys → List XOp → Nat
+  | _, [] => 0
+  | y, op :: r => (if p y op then 1 else 0) + xcountSteps p (xstep y op).1 r
+
+/-- **Hit events, extended op set**: over any sequence of ops - hits arriving directly or as delayed control calls,
+template variables changing, modes stopping and starting for any player, callbacks in any order - the number of hit
+events posted equals the number of accepted hits (`acceptedX`: the op runs a hit method now - a delayed one only at
+its due instant - and the block is present, enabled and outside its window / the step is open / the awaited one). -/
+theorem xhit_event_per_accepted_hit (y : Sys) (ops : List XOp) :
+    xtotal nHit (xrun y ops).2 = xcountSteps acceptedX y ops := by
+  induction ops generalizing y with
+  | nil => rfl
+  | cons op r ih =>
+    simp only [xrun, xtotal, List.map_cons, List.sum_cons, xcountSteps]
+    rw [xstep_nHit]
+    exact congrArg _ (ih _)
+
+/-- **Completion exactly once, extended op set**: the number of completion events equals the number of steps that
+reach the goal - as the `count_complete_value` template evaluates at that very step - while the block is not
+completed; a delayed call counts at the instant it runs, a refused or dropped one never. -/
+theorem xcomplete_exactly_once_per_completion (y : Sys) (ops : List XOp) :
+    xtotal nComplete (xrun y ops).2 = xcountSteps reachesX y ops := by
+  induction ops generalizing y with
+  | nil => rfl
+  | cons op r ih =>
+    simp only [xrun, xtotal, List.map_cons, List.sum_cons, xcountSteps]
+    rw [xstep_nComplete]
+    exact congrArg _ (ih _)
+
+/-- **Counter value, extended op set, with template re-evaluation**: for every counter configuration, machine-wide or
+mode-owned, persisted or not, and every op sequence from boot, whenever the block is present its value equals the
+ledger kept from outside: `base + interval·direction·hits`, where `hits` counts the hit events since the last reset
+(reset / restart - direct or delayed -, timeout, completion with `reset_on_complete`, fresh mode start) and `base` is
+what the `starting_count` template evaluated to AT that reset (`setStart` ops are remembered, they do not move the
+value), adjusted by add / subtract / jump since; after a `persist_state` restore the base is the value the restore
+announces (it is the stored one: `persist_restores`). -/
+theorem xcounter_value (c : Cfg) (ps bt : Bool) (ops : List XOp) (hk : c.kind = .counter)
+    (hl : (xrun (xinit c ps bt) ops).1.s.loaded = true) :
+    (xrun (xinit c ps bt) ops).1.s.value =
+      (xledgerRun c ⟨⟨c.start, 0⟩, c.start⟩ (xrun (xinit c ps bt) ops).2).l.value c := by
+  have key : ∀ (ops : List XOp) (y : Sys) (xl : XLedger), LedgerInv c y xl →
+      LedgerInv c (xrun y ops).1 (xledgerRun c xl (xrun y ops).2) := by
+    intro ops
+    induction ops with
+    | nil => intro y xl inv; exact inv
+    | cons op r ih => intro y xl inv; exact ih _ _ (xledger_step c y xl op inv)
+  have i0 : LedgerInv c (xinit c ps bt) ⟨⟨c.start, 0⟩, c.start⟩ :=
+    ⟨hk, rfl, rfl, rfl, rfl, fun h => by
+      cases bt <;> simp [xinit, init, unload, startVal, hk, Ledger.value] at h ⊢⟩
+  exact (key ops _ _ i0).value hl
+
+/-- **The window reopens** (extended op set): after any op sequence from boot a pending hit window has its deadline
+not in the past and at most `multiple_hit_window` ticks away (no op can prolong it); the clock cannot pass the
+deadline while the window is pending, and the window callback, run at the deadline, opens it - hits are accepted again
+by `xhit_event_per_accepted_hit`. -/
+theorem window_reopens (c : Cfg) (ps bt : Bool) (ops : List XOp) (d : Nat)
+    (hw : (xrun (xinit c ps bt) ops).1.s.windowUntil = some d) :
+    let y := (xrun (xinit c ps bt) ops).1
+    y.s.now ≤ d ∧ d ≤ y.s.now + y.c.window ∧
+    (d = y.s.now → (xstep y (.core .clock)).1 = y ∧ (xstep y (.core .fireW)).1.s.windowUntil = none) := by
+  intro y
+  have i0 : WindowOk (xinit c ps bt).c (xinit c ps bt).s := by
+    cases bt <;> simp [xinit, init, unload, WindowOk]
+  have inv : WindowOk y.c y.s := xrun_window _ ops i0
   have b := inv.2 d hw
-  refine ⟨b.1, b.2, ?_⟩
-  have hl : (run c (init c) ops).1.loaded = true := by
-    cases h : (run c (init c) ops).1.loaded
+  have hl : y.s.loaded = true := by
+    cases h : y.s.loaded
     · rw [inv.1 h] at hw; exact absurd hw (by simp)
     · rfl
-  exact ticks_reopen c _ _ d hl hw (by omega) (by omega)
+  refine ⟨b.1, b.2, fun hd => ?_⟩
+  subst hd
+  have wd := window_deadline y.c y.s hl hw
+  constructor
+  · simp only [xstep]; split
+    · rfl
+    · rw [wd.1]
+  · simp only [xstep]; exact wd.2
+
+/-- **A delayed control call runs at its due instant, once, or never**: (1) from boot on no pending call is ever in
+the past; (2) the clock does not move while a call is due; (3) a call that is not due now cannot run; (4) a call that
+runs is exactly the block method of its event on the state and templates as they are THEN, and is removed from the
+pending calls; (5) when the block's mode stops, nothing stays pending. -/
+theorem delayed_call_at_due_instant_once (c : Cfg) (ps bt : Bool) (ops : List XOp) :
+    let y := (xrun (xinit c ps bt) ops).1
+    (∀ x ∈ y.pending, y.s.now ≤ x.1) ∧
+    (dueNow y.s.now y.pending = true → xstep y (.core .clock) = (y, [Obs.refused])) ∧
+    (∀ a k, takeDue y.s.now a y.pending = none → xstep y (.fireD a k) = (y, [Obs.refused])) ∧
+    (∀ a k rest, takeDue y.s.now a y.pending = some rest →
+      xstep y (.fireD a k) = ({ y with s := (step y.c y.s (actOp a k)).1, pending := rest }, (step y.c y.s (actOp a k)).2) ∧
+      rest.length + 1 = y.pending.length) ∧
+    (y.s.loaded = true → (xstep y .stopMode).1.pending = []) := by
+  intro y
+  have i0 : PendingOk (xinit c ps bt) := by intro x hx; simp [xinit] at hx
+  refine ⟨xrun_pending _ ops i0, fun h => by simp [xstep, h], fun a k h => by simp [xstep, h], fun a k rest h => ?_, fun h => ?_⟩
+  · exact ⟨by simp [xstep, h], (takeDue_sub _ _ _ _ h).2⟩
+  · simp [xstep, stopMode, h]
+
+/-- **persist_state restores per player**: in every state, when the mode of a persisted block stops and later starts
+again for the same player - whatever happened for other players in between is covered by `other_players_untouched` -
+the block presents exactly the enabled / completed / value it had, posts one `updated` event and no hit or completion
+event, has no hit window and no timeout pending; a completed block is still completed on the next ball. -/
+theorem persist_restores (y : Sys) (hp : y.persist = true) (hl : y.s.loaded = true) :
+    let y1 := (xstep y .stopMode).1
+    lookupSnap y.cur y1.saved = some (snapOf y.s) ∧
+    ∀ y2 : Sys, y2.persist = true → y2.s.loaded = false → lookupSnap y.cur y2.saved = some (snapOf y.s) →
+      snapOf (xstep y2 (.startMode y.cur)).1.s = snapOf y.s ∧ (xstep y2 (.startMode y.cur)).1.s.loaded = true ∧
+      (xstep y2 (.startMode y.cur)).1.s.windowUntil = none ∧ (xstep y2 (.startMode y.cur)).1.s.timeoutDue = none ∧
+      (xstep y2 (.startMode y.cur)).2 = [upd (xstep y2 (.startMode y.cur)).1.s] := by
+  refine ⟨by simp [xstep, stopMode, hl, hp, lookupSnap], fun y2 h2 hl2 hs => ?_⟩
+  simp [xstep, startMode, hl2, h2, hs, snapOf]
+
+/-- **Players are isolated**: no op changes the stored state of a player who is not up. -/
+theorem other_players_untouched (y : Sys) (x : XOp) (q : Nat) (hq : q ≠ y.cur) :
+    lookupSnap q (xstep y x).1.saved = lookupSnap q y.saved := by
+  cases x with
+  | core o =>
+    by_cases hc : o = .clock
+    · subst hc; simp only [xstep]; split <;> rfl
+    · by_cases hu : o = .unload
+      · subst hu; simp only [xstep, stopMode]; split; rfl; split
+        · simp [lookupSnap, Ne.symm hq]
+        · rfl
+      · by_cases hl : o = .load
+        · subst hl; simp only [xstep]; rw [(startMode_frame y y.cur).2.2]
+        · rw [xstep_core_other y o hc hu hl]
+  | dpost a d => simp only [xstep]; split <;> rfl
+  | fireD a k =>
+    simp only [xstep]
+    rcases Option.eq_none_or_eq_some (takeDue y.s.now a y.pending) with ht | ⟨rest, ht⟩ <;> simp only [ht]
+  | setStart n => rfl
+  | setGoal g => rfl
+  | stopMode =>
+    simp only [xstep, stopMode]; split; rfl; split
+    · simp [lookupSnap, Ne.symm hq]
+    · rfl
+  | startMode p => simp only [xstep]; rw [(startMode_frame y p).2.2]
+
+/-- **advance_random is a hit on an open step**: whatever open step the random choice names, the effect is that of
+a hit on that step (so `accrual_any_order` and the completion theorems cover it); a step that is already set is never
+hit again. -/
+theorem advance_random_hits_an_open_step (c : Cfg) (s : St) (k : Nat) (hk : c.kind = .accrual) (hl : s.loaded = true) :
+    (getFlag s.flags k = false → step c s (.advr k) = step c s (.hit k)) ∧
+    (getFlag s.flags k = true → step c s (.advr k) = (s, [])) := by
+  constructor <;> intro hg <;> simp [step, stepLoaded, hl, hk, hg]
 
 /-! ## the hypotheses are satisfiable on concrete, non-trivial runs (kernel evaluation) -/
 
 def demo : Cfg := { kind := .counter, start := 2, interval := 1, goal := some 4, window := 2, timeout := 8 }
 
-/-- enable, hit, hit inside the window (ignored), two ticks, hit (completes: reset + disable) -/
-example : (run demo (init demo) [.enable, .count, .count, .tick, .tick, .count]).1.value = 2 ∧
-    total nHit (run demo (init demo) [.enable, .count, .count, .tick, .tick, .count]).2 = 2 ∧
-    total nComplete (run demo (init demo) [.enable, .count, .count, .tick, .tick, .count]).2 = 1 ∧
-    (run demo (init demo) [.enable, .count, .count, .tick, .tick, .count]).1.enabled = false := by decide
+/-- enable, hit, hit inside the window (ignored), two ticks, window callback, hit (completes: reset + disable) -/
+example : (run demo (init demo) [.enable, .count, .count, .clock, .clock, .fireW, .count]).1.value = 2 ∧
+    total nHit (run demo (init demo) [.enable, .count, .count, .clock, .clock, .fireW, .count]).2 = 2 ∧
+    total nComplete (run demo (init demo) [.enable, .count, .count, .clock, .clock, .fireW, .count]).2 = 1 ∧
+    (run demo (init demo) [.enable, .count, .count, .clock, .clock, .fireW, .count]).1.enabled = false := by decide
 
 example : (run demo (init demo) [.enable, .count]).1.windowUntil = some 2 := by decide
+
+/-- the clock waits at the window deadline; a third tick is refused until the window callback has run -/
+example : (run demo (init demo) [.enable, .count, .clock, .clock, .clock]).1.now = 2 := by decide
+
+/-- extended ops: a delayed count lands inside the window and is ignored; a delayed one after the window counts;
+the goal template is lowered from 9 to 5 and the next hit completes (reset to the start value 2) -/
+def xdemo : List XOp :=
+  [.setGoal (some 9), .core .enable, .core .count, .dpost .count 1, .dpost .count 3, .core .clock, .fireD .count 0, .core .clock,
+   .core .fireW, .core .clock, .fireD .count 0, .setGoal (some 5), .core .clock, .core .clock, .core .fireW, .core .count]
+example : xtotal nHit (xrun (xinit demo false true) xdemo).2 = 3 ∧
+    xcountSteps acceptedX (xinit demo false true) xdemo = 3 ∧
+    xtotal nComplete (xrun (xinit demo false true) xdemo).2 = 1 ∧ xcountSteps reachesX (xinit demo false true) xdemo = 1 ∧
+    (xrun (xinit demo false true) xdemo).1.s.value = 2 ∧ (xrun (xinit demo false true) xdemo).1.s.loaded = true := by decide
+example : (xrun (xinit demo false true) [.core .enable, .dpost .count 2, .core .clock, .core .clock, .core .clock]).1.s.now = 2 ∧
+    dueNow 2 (xrun (xinit demo false true) [.core .enable, .dpost .count 2, .core .clock, .core .clock]).1.pending = true := by
+  decide
+
+/-- persist_state, two players: player 0 counts to 3, player 1 gets a fresh block, player 0 gets 3 back -/
+def pdemo : Cfg := { kind := .counter, start := 2, goal := some 9, startEnabled := true }
+example : (xrun (xinit pdemo true false) [.startMode 0, .core .count, .stopMode, .startMode 1, .core .count, .core .count,
+      .stopMode, .startMode 0]).1.s.value = 3 ∧
+    (xrun (xinit pdemo true false) [.startMode 0, .core .count, .stopMode, .startMode 1]).1.s.value = 2 ∧
+    (xrun (xinit pdemo true false) [.startMode 0, .core .count, .stopMode, .startMode 1]).1.persist = true := by decide
 
 def demoAcc : Cfg := { kind := .accrual, steps := 3, startEnabled := true }
 example : allTrue (marks (init demoAcc).flags [2, 0]) = false ∧ (init demoAcc).enabled = true := by decide
 example : total nComplete (run demoAcc (init demoAcc) [.hit 2, .hit 0, .hit 2, .hit 1]).2 = 1 := by decide
+example : total nComplete (run demoAcc (init demoAcc) [.advr 2, .advr 0, .advr 2, .advr 1]).2 = 1 ∧
+    getFlag (run demoAcc (init demoAcc) [.advr 2]).1.flags 0 = false := by decide
 
 def demoSeq : Cfg := { kind := .sequence, steps := 3, startEnabled := true }
 example : seqAdv (init demoSeq).value [1, 0, 0, 2, 1] = 2 := by decide
